@@ -35,6 +35,16 @@ def generate(rng, seed, index, tier):
     x0 = gen.magnify(rng, spec, x0, p=0.12)
     kw = gen.gen_params(rng, spec, x0, y0, p_knob=0.4, reporting=False, numeric=0.2)
     kw["penalty_update"] = str(rng.choice(["Constant", "DualNorm", "DualEquilibration", "ParetoDecrease", "ObjectiveFilter", "LagrangianFilter"], p=[0.1, 0.4, 0.15, 0.15, 0.1, 0.1]))
+    if rng.random() < 0.05 and spec["m"]:
+        # many small steps under a filter policy: the filter collects a long front (dozens to hundreds of entries)
+        kw["penalty_update"] = str(rng.choice(["ObjectiveFilter", "LagrangianFilter"]))
+        kw["step_control_type"] = "Fixed"
+        kw["lamb_init"] = float(rng.choice([10.0, 100.0]))
+        kw["rho"] = float(rng.choice([1.0, 2.5]))
+        kw["iteration_limit"] = 300
+        kw.pop("lamb_max", None)
+        kw = gen.quiet_params(kw)
+        return gen.base_world(seed, ID, index, spec, x0, y0, kw, case={"resolve": False, "faulted": False, "pts_seed": 0})
     if rng.random() < 0.6:
         y0 = np.round(rng.normal(size=spec["m"]) * float(rng.choice([1.0, 50.0, 1e4])), 3)
     if rng.random() < 0.5:
